@@ -631,6 +631,81 @@ fn run_case<A: Subject>(ctx: &Ctx, only: Option<&str>) -> u64 {
   evals
 }
 
+#[repr(C, align(64))]
+#[derive(Clone, Copy)]
+struct A64([u8; 64]);
+#[repr(C, align(4096))]
+#[derive(Clone, Copy)]
+struct A4096([u8; 4096]);
+
+/// Pointers handed out for types whose alignment is above the allocator default, on arenas created with a
+/// matching maximum alignment, before and after resizing the (Vec-backed, unsync) arena: `align_to`,
+/// `alloc_aligned_bytes` and `alloc::<T>` must yield addresses aligned for T.  Returns (calls, problems).
+pub fn big_alignment_after_truncate() -> (u64, Vec<String>) {
+  let mut bad = vec![];
+  let mut n = 0u64;
+  fn probe<A: Subject>(a: &A, when: &str, n: &mut u64, bad: &mut Vec<String>) {
+    let base = a.raw_ptr() as usize;
+    if base % 4096 != 0 {
+      bad.push(format!("{}: {} arena created with maximum alignment 4096 has its base at {:#x}", when, A::FLAVOUR, base));
+    }
+    // a buffer at an odd cursor, then align_to for the two types
+    let mut pad = a.alloc_bytes(3).unwrap();
+    unsafe { pad.detach() };
+    for which in 0..2 {
+      let mut b = a.alloc_bytes(if which == 0 { 200 } else { 8300 }).unwrap();
+      unsafe { b.detach() };
+      let r = if which == 0 { b.align_to::<A64>().map(|p| p.as_ptr() as usize) } else { b.align_to::<A4096>().map(|p| p.as_ptr() as usize) };
+      *n += 1;
+      let al = if which == 0 { 64 } else { 4096 };
+      match r {
+        Ok(p) if p % al != 0 => bad.push(format!("{}: {} align_to::<align {}> returned {:#x}", when, A::FLAVOUR, al, p)),
+        Err(e) => bad.push(format!("{}: {} align_to::<align {}> on a large enough buffer failed: {:?}", when, A::FLAVOUR, al, e)),
+        _ => {}
+      }
+    }
+    let t = unsafe { a.alloc::<A64>() }.map(|mut t| {
+      unsafe { t.detach() };
+      a.raw_ptr() as usize + t.offset()
+    });
+    *n += 1;
+    match t {
+      Ok(p) if p % 64 != 0 => bad.push(format!("{}: {} alloc::<align 64> placed the value at {:#x}", when, A::FLAVOUR, p)),
+      Err(e) => bad.push(format!("{}: {} alloc::<align 64> failed: {:?}", when, A::FLAVOUR, e)),
+      _ => {}
+    }
+    let t = a.alloc_aligned_bytes::<A64>(5).map(|mut t| {
+      unsafe { t.detach() };
+      a.raw_ptr() as usize + t.offset()
+    });
+    *n += 1;
+    match t {
+      Ok(p) if p % 64 != 0 => bad.push(format!("{}: {} alloc_aligned_bytes::<align 64> starts at {:#x}", when, A::FLAVOUR, p)),
+      Err(e) => bad.push(format!("{}: {} alloc_aligned_bytes::<align 64> failed: {:?}", when, A::FLAVOUR, e)),
+      _ => {}
+    }
+  }
+  for unify in [false, true] {
+    let mut cfg = Cfg::new(Fl::Optimistic, Backend::Vec, unify, 40000);
+    cfg.max_align = 4096;
+    let s: sync::Arena = build(&cfg, None).unwrap();
+    probe(&s, "as created", &mut n, &mut bad);
+    let mut u: unsync::Arena = build(&cfg, None).unwrap();
+    probe(&u, "as created", &mut n, &mut bad);
+    // grow, shrink, grow again: every resize reallocates the backing vector
+    for (k, size) in [60000usize, 40000, 40001, 90000, 65536, 70000, 70008].into_iter().enumerate() {
+      let _ = u.truncate(size);
+      if u.capacity() != size {
+        continue;
+      }
+      if u.remaining() > 9000 {
+        probe(&u, &format!("after truncate #{} to {}", k + 1, size), &mut n, &mut bad);
+      }
+    }
+  }
+  (n, bad)
+}
+
 pub fn check(tier: Tier) -> i32 {
   let run = Run::new("C14", tier, "model_checking");
   let thorough = tier == Tier::Thorough;
@@ -667,6 +742,16 @@ pub fn check(tier: Tier) -> i32 {
       run.sample(|| json!({"buffer": {"capacity": cap, "source": src, "owned": owned, "flavour": "sync"}, "calls_checked": n, "methods": "put/write/get x 10 int types x be/le/ne x value alphabet, put_u8/i8, put_slice + io::Write all lengths, set_len all lengths, align_to/put/put_aligned x layouts, 8 varint types; every fill level 0..=capacity"}));
     }
   });
+  {
+    let case = json!({"engine": "buf", "tag": "C14", "part": "big-alignment"});
+    crate::crashguard::set_case(crate::crashguard::head_of(&case));
+    let (n, bad) = big_alignment_after_truncate();
+    crate::crashguard::clear_case();
+    run.eval(n);
+    for m in bad {
+      run.violation(Violation { property: "C14".into(), signature: format!("C14:big-alignment:{}", if m.starts_with("as created") { "as-created" } else { "after-truncate" }), message: m, replay: case.clone() });
+    }
+  }
   run.rule("every generated buffer method x value alphabet x every fill level 0..=capacity x every buffer capacity 0..=max x buffer source (fresh at several cursor residues, padded aligned-bytes, recycled segment) x borrowed/owned x sync/unsync; each call on a freshly built arena, whole-image before/after comparison; evaluations = calls; states/non-trivial = distinct (capacity, source, handle kind, flavour) cells");
   run.set("bounds", json!({"max_capacity": maxcap, "layouts": "align 1..16 x size 0..=24 and 32", "int_values_per_type": values(8).len()}));
   run.assume("value alphabet is boundary-dense, not all 2^128 values");
@@ -675,6 +760,14 @@ pub fn check(tier: Tier) -> i32 {
 
 /// replay one (buffer, method) cell
 pub fn replay(case: &serde_json::Value) -> i32 {
+  if case["part"] == "big-alignment" {
+    let (n, bad) = big_alignment_after_truncate();
+    println!("replay buf (big-alignment): {} calls, {} problem(s)", n, bad.len());
+    for m in &bad {
+      println!("  !! {}", m);
+    }
+    return if bad.is_empty() { 0 } else { 1 };
+  }
   let run = Run::new("C14", Tier::Quick, "model_checking");
   let src: Src = match (&case["src"], case["src"].as_object()) {
     (_, Some(o)) => {
